@@ -85,6 +85,7 @@ def check(cfg, lines):
     place = {}                       # item -> ("src", n) | ("edge", e) | ("node", n) | ("disc", n) | ("recv", n)
     t_gen, t_get, t_put, creation = {}, defaultdict(list), defaultdict(list), {}
     inside = defaultdict(list)       # edge -> items inside (order of put)
+    occ_hist = defaultdict(list)     # edge -> [(t, occupancy after the last event of instant t)], increasing t
     last_t = 0
     held = defaultdict(list)         # node -> items held
     got_by = {}                      # item -> node that pulled it last
@@ -161,6 +162,10 @@ def check(cfg, lines):
                           (src, i, ed, t, e2, top, ecfg[e2]["cap"]))
             place[i] = ("edge", ed)
             inside[ed].append(i)
+            if occ_hist[ed] and occ_hist[ed][-1][0] == t:
+                occ_hist[ed][-1] = (t, len(inside[ed]))
+            else:
+                occ_hist[ed].append((t, len(inside[ed])))
             t_put[i].append((t, ed))
             push_log[src].append((t, i, ed))
             L = level[ed]
@@ -178,6 +183,10 @@ def check(cfg, lines):
                     v("C06", "item %d taken from FIFO edge %d at %s while item %d, which became available before it, is still inside" %
                       (i, ed, t, inside[ed][0]))
                 inside[ed].remove(i)
+                if occ_hist[ed] and occ_hist[ed][-1][0] == t:
+                    occ_hist[ed][-1] = (t, len(inside[ed]))
+                else:
+                    occ_hist[ed].append((t, len(inside[ed])))
                 if ecfg[ed]["kind"] == "fleet" and t_put[i] and t < t_put[i][-1][0] + 2 * ecfg[ed]["transit"]:
                     v("C14", "item %d left fleet edge %d at %s, less than a round trip (2 x %s) after it was loaded at %s" %
                       (i, ed, t, ecfg[ed]["transit"], t_put[i][-1][0]))
@@ -216,7 +225,7 @@ def check(cfg, lines):
                 probe = outs_ if ncfg[n]["outsel"][0] == "FA" else []
                 slack = ncfg[n]["wcap"] - 1
                 for e2 in probe:
-                    if len(inside[e2]) + slack < ecfg[e2]["cap"] and ecfg[e2]["kind"] == "buffer":
+                    if len(inside[e2]) + slack < ecfg[e2]["cap"]:
                         v("C09", "non-blocking node %d dropped item %d at %s although out-edge %d held %d of %d" %
                           (n, i, t, e2, len(inside[e2]), ecfg[e2]["cap"]))
             if ncfg[n]["blocking"]:
@@ -264,12 +273,39 @@ def check(cfg, lines):
             for name, grp in (("A", setup + idle + allb + onep), ("B", setup + idle + allp + oneb)):
                 if abs(grp - T) > 1e-6:
                     v("C17", "machine %d: state group %s adds up to %s, elapsed %s (states %s)" % (n, name, grp, T, ts))
+            if ncfg[n]["wcap"] == 1 and ncfg[n]["blocking"]:
+                # one worker: it processes an item from the pull for one delay, then is blocked until the push
+                proc_t = blk_t = 0.0
+                dl = ncfg[n]["delays"]
+                for k_, (tp_, i_, e_) in enumerate(pull_log[n]):
+                    d_ = dl[k_ % len(dl)]
+                    outs_ = [tq for (tq, e2) in t_put[i_] if src_of_edge[e2] == n]
+                    end_ = outs_[0] if outs_ else T
+                    proc_t += max(0.0, min(tp_ + d_, T) - tp_)
+                    blk_t += max(0.0, min(end_, T) - min(tp_ + d_, T))
+                if abs(onep - proc_t) > 1e-6 or abs(allp - proc_t) > 1e-6:
+                    v("C17", "machine %d (one worker): processing states charged %s / %s, its items were in processing for %s" % (n, onep, allp, proc_t))
+                if abs(allb - blk_t) > 1e-6 or abs(oneb - blk_t) > 1e-6:
+                    v("C17", "machine %d (one worker): blocked states charged %s / %s, finished items waited for room for %s" % (n, allb, oneb, blk_t))
             occ = nums(nd["occ"])
             if abs(sum(occ) - T) > 1e-6:
                 v("C17", "machine %d: worker-occupancy histogram adds up to %s, elapsed %s" % (n, sum(occ), T))
             if max_held[n] > ncfg[n]["wcap"]:
                 v("C08", "machine %d held %d items at once, work_capacity %d" % (n, max_held[n], ncfg[n]["wcap"]))
         else:
+            if kind == "splitter" and ncfg[n]["blocking"] and len(ts) == 4:
+                # one worker: processing for one delay after the pull, then blocked until the emptied pallet has left
+                proc_t = blk_t = 0.0
+                dl = ncfg[n]["delays"]
+                for k_, (tp_, pal_, e_) in enumerate(pull_log[n]):
+                    d_ = dl[k_ % len(dl)]
+                    outs_ = [tq for (tq, i2, e2) in push_log[n] if i2 == pal_]
+                    end_ = outs_[0] if outs_ else T
+                    proc_t += max(0.0, min(tp_ + d_, T) - tp_)
+                    blk_t += max(0.0, min(end_, T) - min(tp_ + d_, T))
+                if abs(ts[2] - proc_t) > 1e-6 or abs(ts[3] - blk_t) > 1e-6:
+                    v("C17", "splitter %d: PROCESSING / BLOCKED charged %s / %s, its pallets were in processing for %s and waited for room for %s" %
+                      (n, ts[2], ts[3], proc_t, blk_t))
             if kind in ("splitter", "combiner") and max_units[n] > 1:
                 v("C08", "%s %d held %d pallets (units of work) at once, it has one worker" % (kind, n, max_units[n]))
             if abs(sum(ts) - T) > 1e-6:
@@ -325,9 +361,64 @@ def check(cfg, lines):
                     v("C16", "splitter %d emitted the content of pallet %d out of order: %s" % (n, pal, em))
                 if pal in pos and any(x not in pos and (n, x) not in t_disc for x in content):
                     v("C16", "splitter %d emitted pallet %d before all of its items" % (n, pal))
+            for pal in pulled[:-1]:
+                if emitted[pal] == 0 and (n, pal) not in t_disc:
+                    v("C16", "splitter %d went on to the next pallet without emitting pallet %d" % (n, pal))
             extra = [x for x in emitted if x not in pulled and not any(x in [i2 for (i2, _, _) in packed[p_]] for p_ in pulled)]
             if extra:
                 v("C16", "splitter %d emitted items %s that it never received" % (n, extra))
+    # ---------------- C08 / C10: a finished item waits only while no permitted out-edge has room
+    def room_instant(ed, lo, hi):
+        """an instant t' with lo <= t' < hi at whose end edge ed holds fewer items than its capacity"""
+        h = occ_hist[ed]
+        cap = ecfg[ed]["cap"]
+        before = 0
+        for (tt, oc) in h:
+            if tt <= lo:
+                before = oc
+        if before < cap and lo < hi:
+            return lo
+        for (tt, oc) in h:
+            if lo < tt < hi and oc < cap:
+                return tt
+        return None
+
+    for n, nc in enumerate(ncfg):
+        if nc["kind"] not in ("machine", "combiner") or not nc["blocking"] or crash:
+            continue
+        waits = []                      # (item, ready time, push time or None, edge pushed to)
+        if nc["kind"] == "machine":
+            for k_, (tp_, i_, e_) in enumerate(pull_log[n]):
+                d_ = nc["delays"][k_ % len(nc["delays"])]
+                o_ = [(tq, e2) for (tq, e2) in t_put[i_] if src_of_edge[e2] == n]
+                waits.append((i_, tp_ + d_, o_[0][0] if o_ else None, o_[0][1] if o_ else None))
+        else:
+            pallets_ = [(t_, pal_) for (t_, pal_, e_) in pull_log[n] if e_ == nc["ins"][0]]
+            for k_, (t_, pal_) in enumerate(pallets_):
+                d_ = nc["delays"][k_ % len(nc["delays"])]
+                ing_ = [tt for (tt, i2, e2) in pull_log[n] if any(i2 == x and pk == n for (x, _, pk) in packed[pal_])]
+                need_ = sum(q for k2, q in enumerate(nc["recipe"]) if k2 >= 1 and k2 < len(nc["ins"]))
+                if len(ing_) < need_:
+                    continue            # still gathering
+                o_ = [(tq, e2) for (tq, i2, e2) in push_log[n] if i2 == pal_]
+                waits.append((pal_, max([t_] + ing_) + d_, o_[0][0] if o_ else None, o_[0][1] if o_ else None))
+        for (i_, ready_, tp_, e_) in waits:
+            hi = tp_ if tp_ is not None else last_t
+            if ready_ >= hi:
+                continue
+            if nc["outsel"][0] == "FA":
+                cands = nc["outs"]
+            elif e_ is not None:
+                cands = [e_]
+            else:
+                continue
+            for e2 in cands:
+                ti = room_instant(e2, ready_, hi)
+                if ti is not None:
+                    for pp in ("C08", "C10"):
+                        v(pp, "%s %d held finished item %d from %s until %s although its out-edge %d had room at the end of instant %s" %
+                          (nc["kind"], n, i_, ready_, "the end of the run" if tp_ is None else tp_, e2, ti))
+                    break
     # ---------------- C08 / C09 / C15: per node timing and routing
     for n, nc in enumerate(ncfg):
         kind = nc["kind"]
@@ -386,6 +477,12 @@ def check(cfg, lines):
                 d = delays[k % len(delays)]
                 content = [i2 for (i2, _, _) in packed[pal]] + [pal]
                 firsts = [tp for (tp, i2, e2) in push_log[n] if i2 in content] + [t_disc[(n, x)] for x in content if (n, x) in t_disc]
+                if not nc["blocking"]:
+                    late = [tt for tt in firsts if tt != t + d]
+                    if late:
+                        v("C09", "non-blocking splitter %d emitted / dropped part of pallet %d at %s, the pallet was ready at %s" % (n, pal, late[0], t + d))
+                    if len(firsts) < len(content) and t + d < last_t:
+                        v("C09", "non-blocking splitter %d still holds part of pallet %d that was ready at %s" % (n, pal, t + d))
                 if firsts and min(firsts) < t + d:
                     v("C08", "splitter %d emitted part of pallet %d at %s, before pull time %s + delay %s" % (n, pal, min(firsts), t, d))
         if kind == "combiner":
